@@ -70,7 +70,11 @@ FLOORS = {
                               "served_from_cache": 280000, "reload_of_cached": 13000,
                               "notfound": 90000, "evicting_loads": 170000,
                               "exec_dict": 400000, "exec_func": 80000, "exec_funcup": 80000,
-                              "exec_fs": 80000, "histories_len6": 50000}},
+                              "exec_fs": 80000, "histories_len6": 50000, "exec_fsdn": 49000,
+                              "exec_fszz": 11000, "exec_size3": 190000, "long_histories": 3200,
+                              "cache_len_checks": 2800000, "cache_content_checks": 2800000,
+                              "cache_order_checks": 2200000, "reload_in_full_cache": 17000,
+                              "fs_reload_mtime_backwards": 9800}},
 }
 
 NAMES = ("a", "b", "c")
